@@ -216,7 +216,9 @@ class C20b(Obligation):
         proj._django = False
         proj.added_sys_path = added
         state = Obj(environment=Obj(get_sys_path=lambda: list(base)), script_path=script_path)
-        proj._get_base_sys_path = lambda st: [b for k, b in enumerate(base) if not _first_empty(ctx, base, k)]
+        cached_base = [b for k, b in enumerate(base) if not _first_empty(ctx, base, k)]      # memoised in jedi: one list object
+        cached_before = list(cached_base)
+        proj._get_base_sys_path = lambda st: cached_base
         added_before = list(added)
         explicit_before = list(explicit) if explicit is not None else None
         out = ctx.call(raw(Project._get_sys_path), proj, state)
@@ -227,6 +229,8 @@ class C20b(Obligation):
         ctx.check(proj.added_sys_path is added and len(added) == len(added_before)
                   and all(a is b for a, b in zip(added, added_before)),
                   'computing the path does not modify the project settings (added_sys_path)')
+        ctx.check(len(cached_base) == len(cached_before) and all(a is b for a, b in zip(cached_base, cached_before)),
+                  'the (memoised) environment path, which is also the safe-import whitelist, is not modified')
         if explicit is not None:
             ctx.check(proj._sys_path is explicit and len(explicit) == len(explicit_before),
                       'computing the path does not modify the project settings (sys_path)')
